@@ -222,11 +222,18 @@ fn apply(w: &World, m: &mut Model, op: Op, emit_zero: bool) -> Option<(String, S
             None
         }
         Op::Readout => {
-            let e = w.rec.readout();
+            let mut e = w.rec.readout();
             let c = read(&e);
             let mut problems = Vec::new();
             if !c.split {
                 problems.push(("readout-without-split-config".to_string(), "the readout entry has labelled metrics but does not allow split entries".to_string()));
+            }
+            // the other public route: the readout nested in another entry, its timestamp removed.
+            // Everything else it writes is the same
+            e.remove_timestamp();
+            let nested = read(&e);
+            if nested.timestamps != 0 || nested.split != c.split || format!("{:?}", nested.items) != format!("{:?}", c.items) || nested.other != c.other {
+                problems.push(("readout-without-timestamp-writes-something-else".to_string(), format!("after remove_timestamp() the readout writes {} timestamps, split config {}, {} items (with its timestamp: split config {}, {} items)", nested.timestamps, nested.split, nested.items.len(), c.split, c.items.len())));
             }
             if !c.other.is_empty() {
                 problems.push(("unexpected-item".to_string(), format!("{:?}", c.other)));
